@@ -27,6 +27,7 @@ import (
 	"k8s.io/apimachinery/pkg/util/validation/field"
 	apivalidation "k8s.io/kubernetes/pkg/apis/core/validation"
 	"k8s.io/utils/clock"
+	"k8s.io/utils/pointer"
 
 	configv1alpha1 "github.com/furiko-io/furiko/apis/config/v1alpha1"
 	"github.com/furiko-io/furiko/apis/execution/v1alpha1"
@@ -35,8 +36,10 @@ import (
 	"github.com/furiko-io/furiko/pkg/core/validation"
 	"github.com/furiko-io/furiko/pkg/execution/util/cron"
 	"github.com/furiko-io/furiko/pkg/execution/util/jobconfig"
+	"github.com/furiko-io/furiko/pkg/execution/util/parallel"
 	executionlister "github.com/furiko-io/furiko/pkg/generated/listers/execution/v1alpha1"
 	"github.com/furiko-io/furiko/pkg/runtime/controllercontext"
+	"github.com/furiko-io/furiko/pkg/utils/matrix"
 )
 
 const (
@@ -473,6 +476,12 @@ func (v *Validator) ValidateParallelismSpec(spec *v1alpha1.ParallelismSpec, fldP
 		allErrs = append(allErrs, field.Required(fldPath, "must specify a parallelism type"))
 	}
 
+	// Every index must have its own identity (hash), otherwise two indexes would
+	// share the same task name and status.
+	if len(allErrs) == 0 {
+		allErrs = append(allErrs, v.validateParallelIndexesDistinct(spec, fldPath)...)
+	}
+
 	allErrs = append(allErrs, v.ValidateParallelCompletionStrategy(spec.CompletionStrategy, fldPath.Child("completionStrategy"))...)
 
 	return allErrs
@@ -496,6 +505,78 @@ func (v *Validator) validateParallelismSpecWithMatrix(
 		}
 	}
 	return allErrs
+}
+
+// validateParallelIndexesDistinct validates that no two indexes of the
+// ParallelismSpec share the same index hash. Indexes are enumerated lazily and
+// validation stops at the first collision, which bounds the work by the size of
+// the hash space.
+func (v *Validator) validateParallelIndexesDistinct(spec *v1alpha1.ParallelismSpec, fldPath *field.Path) field.ErrorList {
+	seen := make(map[string]v1alpha1.ParallelIndex)
+	check := func(index v1alpha1.ParallelIndex, fldPath *field.Path) *field.Error {
+		hash, err := parallel.HashIndex(index)
+		if err != nil {
+			return field.InternalError(fldPath, err)
+		}
+		if other, ok := seen[hash]; ok {
+			detail := fmt.Sprintf("parallel index %v cannot be distinguished from %v", formatParallelIndex(index), formatParallelIndex(other))
+			return field.Invalid(fldPath, formatParallelIndex(index), detail)
+		}
+		seen[hash] = index
+		return nil
+	}
+
+	switch {
+	case spec.WithCount != nil:
+		for i := int64(0); i < *spec.WithCount; i++ {
+			if err := check(v1alpha1.ParallelIndex{IndexNumber: pointer.Int64(i)}, fldPath.Child("withCount")); err != nil {
+				return field.ErrorList{err}
+			}
+		}
+	case len(spec.WithKeys) > 0:
+		for i, key := range spec.WithKeys {
+			if err := check(v1alpha1.ParallelIndex{IndexKey: key}, fldPath.Child("withKeys").Index(i)); err != nil {
+				return field.ErrorList{err}
+			}
+		}
+	case len(spec.WithMatrix) > 0:
+		if matrix.NumCombinations(spec.WithMatrix) == 0 {
+			break
+		}
+		keys := matrix.GetKeys(spec.WithMatrix)
+		indexes := make([]int, len(keys))
+		for {
+			combination := matrix.IndexMatrix(spec.WithMatrix, keys, indexes)
+			if err := check(v1alpha1.ParallelIndex{MatrixValues: combination}, fldPath.Child("withMatrix")); err != nil {
+				return field.ErrorList{err}
+			}
+			// Advance to the next combination.
+			j := len(indexes) - 1
+			for ; j >= 0; j-- {
+				indexes[j]++
+				if indexes[j] < len(spec.WithMatrix[keys[j]]) {
+					break
+				}
+				indexes[j] = 0
+			}
+			if j < 0 {
+				break
+			}
+		}
+	}
+
+	return nil
+}
+
+func formatParallelIndex(index v1alpha1.ParallelIndex) string {
+	switch {
+	case index.IndexNumber != nil:
+		return fmt.Sprintf("%d", *index.IndexNumber)
+	case index.IndexKey != "":
+		return fmt.Sprintf("%q", index.IndexKey)
+	default:
+		return fmt.Sprintf("%v", index.MatrixValues)
+	}
 }
 
 func (v *Validator) ValidateParallelCompletionStrategy(
